@@ -38,7 +38,8 @@ class Check(RuntimeCheck):
     prop = 'C14'
     design_ref = 'DESIGN.md §4.2, §5 C14'
     theorems = ['C14_tuple_impls_in_order', 'generated_table_in_order', 'C14_deconstruct_flatten', 'C14_real_tuples_flatten',
-                'push_spec', 'C14_assemble_error_iff', 'C14_new_mock_error_iff']
+                'push_spec', 'C14_assemble_error_iff', 'C14_new_mock_error_iff', 'C14_ordered_only_exact_counts',
+                'C14_then_only_after_exact', 'run_inOrder_no_atLeast', 'run_then_position']
 
     def rule(self):
         return ("translator: the table of tuple impls is regenerated from /repo/src/clause.rs and re-checked by `decide`; "
@@ -99,6 +100,11 @@ class Check(RuntimeCheck):
 
     def judge(self, name, text, real_lines):
         return None
+
+    def extra(self, rep, tier, seed):
+        # compile-time half: ordered => exact counts only, then() only after an exact count
+        from .. import tscheck
+        tscheck.report(self, rep, tier, 'C14')
 
     def nontrivial(self, name, text, real_lines):
         return 'tuple n=' in text
